@@ -49,7 +49,35 @@ def _same_name_cuts(rng):
             "obs": gen.rand_paulis(rng, nq, 2), "bases": [], "cregs": [], "prewarm": False}
 
 
+def _numbered_label_cases():
+    """pre-placed cut gates whose own labels already end in `_<digits>` (a user numbering cuts 1-based, `layer_7`, `a_1` before `a_0`), next
+    to ordinary cut gates: every cut is numbered by its position among the cuts all the same, and `bases[d]` belongs to the halves tagged `_d`"""
+    rzz = {"kind": "gate", "gate": "rzz", "params": [0.4]}
+    cx = {"kind": "gate", "gate": "cx", "params": []}
+    swap = {"kind": "gate", "gate": "swap", "params": []}
+    def pre(qs, b, lab):
+        return {"name": "qpd_2q", "qubits": qs, "basis": b, "label": lab}
+    progs = [
+        (4, [0, 0, 1, 1], [rzz, cx], [{"name": "h", "qubits": [0]}, pre([1, 2], 0, "cut_1"), {"name": "cx", "qubits": [0, 1]}, pre([0, 3], 1, "cut_2")]),
+        (4, [0, 1, 0, 1], [cx, rzz, swap], [pre([0, 1], 0, "a_1"), {"name": "ry", "qubits": [2], "params": [0.3]}, pre([2, 3], 1, "a_0"),
+                                            {"name": "cz", "qubits": [1, 3]}, pre([0, 3], 2, "layer_7")]),
+        (3, [0, 0, 1], [rzz], [{"name": "cx", "qubits": [0, 1]}, {"name": "rzz", "qubits": [1, 2], "params": [1.1]}, pre([0, 2], 0, "zz_0"),
+                               {"name": "h", "qubits": [2]}]),
+        (3, [0, 1, 1], [swap, cx], [pre([0, 1], 0, "cut_10"), {"name": "cx", "qubits": [1, 2]}, pre([0, 2], 1, "x_3_1"), {"name": "crx", "qubits": [0, 1], "params": [0.6]}]),
+    ]
+    for nq, labels, bases, instrs in progs:
+        for kind in ("partition_problem", "partition_circuit_qubits"):
+            for auto in (False, True):
+                if auto and kind != "partition_problem":
+                    continue
+                obs = [{"l": "ZXYZ"[:nq], "p": 0}, {"l": "XZZY"[:nq], "p": 0}]
+                yield (kind, {"nq": nq, "qregs": [nq], "instrs": instrs, "labels": None if auto else labels, "pool_idx": [0, 1],
+                              "obs": obs if kind == "partition_problem" else None, "bases": bases, "cregs": [], "prewarm": False,
+                              "always_oracle": True})
+
+
 def cases(rng, tier):
+    yield from _numbered_label_cases()
     N = 150 if tier == "quick" else 2500
     for k in range(4 if tier == "quick" else 40):
         p = _same_name_cuts(rng)
